@@ -140,6 +140,8 @@ def show(v: Any) -> str:
     if k == "partial":
         args = [show(v[1])] + [show(a) for a in v[2]] + [f"{kk}={show(vv)}" for kk, vv in v[3]]
         return f"partial({', '.join(args)})"
+    if k == "when":
+        return f"({show(v[2])} when " + " and ".join(show(c) for c in v[1]) + ")"
     if k == "phi":
         return "(" + " | ".join(show(x) for x in v[1]) + ")"
     if k == "star":
@@ -1666,9 +1668,11 @@ class Interp:
             if len(elt_res) > 1:
                 # the element function has several paths (an `if` inside a helper): the element is one of their values
                 vals_ = []
-                for v_, _s in elt_res:
-                    if v_ not in vals_:
-                        vals_.append(v_)
+                for v_, s_ in elt_res:
+                    learnt = tuple(sorted((f_ for f_ in (s_.facts - st.facts)), key=repr))
+                    alt = ("when", tuple(("not", f_[0]) if not f_[1] else f_[0] for f_ in learnt), v_) if learnt else v_
+                    if alt not in vals_:
+                        vals_.append(alt)
                 return [(("comp", "gen", vals_[0] if len(vals_) == 1 else ("phi", tuple(vals_)), args[1], ()), st)]
         if meta is None and cv[0] == "attr" and cv[2] == "update" and len(args) == 1 and not kwargs and args[0][0] == "dict" and args[0][1] \
                 and all(k_ is not None and k_[0] == "const" for k_, _v in args[0][1]):
